@@ -139,7 +139,7 @@ fn recipe_for(prop: &str) -> Recipe {
         "C10" => Recipe { setup: &[(Kind::Mode, 5), (Kind::Text, 1)], focus: &[(Kind::Mode, 1)], ..base },
         "C11" => Recipe {
             setup: ALL_KINDS,
-            focus: &[(Kind::Alt, 6), (Kind::SaveRestore, 6), (Kind::Text, 2), (Kind::Move, 2), (Kind::Sgr, 1), (Kind::Region, 1), (Kind::Shift, 2)],
+            focus: &[(Kind::Alt, 6), (Kind::SaveRestore, 6), (Kind::Text, 2), (Kind::TextMargin, 2), (Kind::WideEdit, 2), (Kind::Erase, 1), (Kind::Move, 2), (Kind::Sgr, 1), (Kind::Region, 1), (Kind::Shift, 2)],
             api_scrollback: true,
             ..base
         },
@@ -452,6 +452,59 @@ fn templates(ctx: &mut Ctx) {
                         ctx.sess.checked("D", "D:B");
                         ctx.sess.checked("T", "T");
                     }
+                }
+            }
+        }
+        _ => {}
+    }
+    match ctx.prop.as_str() {
+        "C11" => {
+            // isolation under edge operations: both grids are filled so that every line but the
+            // last is soft-wrapped, then every line of the screen that shows is edited with the
+            // operations that touch wrap flags and wide pairs (the full dump holds both grids, so
+            // an edit that reaches the hidden grid is seen at once)
+            let wide = "efbc8a"; // U+FF0A, double width
+            for alt in ["1b5b3f3130343968", "1b5b3f343768"] {
+                let exit = if alt.ends_with("3130343968") { "1b5b3f313034396c" } else { "1b5b3f34376c" };
+                for (rows, cols) in [(3u64, 6u64), (2, 5), (4, 8)] {
+                    let fill = |ctx: &mut Ctx, first: u8| {
+                        let n = rows * cols + 2;
+                        let bytes: Vec<u8> = (0..n).map(|i| first + (i % 20) as u8).collect();
+                        ctx.sess.checked(&format!("P 1b5b48{}", vtharness::hex(&bytes)), "Text");
+                    };
+                    let edits = |ctx: &mut Ctx| {
+                        for r in 1..=rows {
+                            let cup = |c: u64| vtharness::hex(format!("\x1b[{r};{c}H").as_bytes());
+                            let list = [
+                                format!("{}{wide}{}{wide}", cup(cols - 1), cup(cols - 2)),
+                                format!("{}{wide}{}1b5b58", cup(cols - 1), cup(cols - 1)),
+                                format!("{}7879", cup(cols)),
+                                format!("{}{wide}{}1b5b50", cup(cols - 1), cup(cols - 2)),
+                                format!("{}1b5b3240", cup(1)),
+                                format!("{}1b5b4b", cup(cols - 1)),
+                                format!("{}1b5b314b", cup(cols)),
+                                format!("{}1b5b4c", cup(1)),
+                                format!("{}1b5b4d", cup(1)),
+                            ];
+                            for e in list {
+                                ctx.sess.checked(&format!("P {e}"), "Edge");
+                                ctx.sess.checked("D", "D:Edge");
+                            }
+                        }
+                    };
+                    ctx.case_start = ctx.sess.ops.len();
+                    ctx.sess.new_case(rows, cols, 2, "none", "template");
+                    fill(ctx, b'a');
+                    ctx.sess.checked(&format!("P {alt}"), "Alt");
+                    ctx.sess.checked("D", "D:Alt");
+                    edits(ctx);
+                    fill(ctx, b'A');
+                    ctx.sess.checked(&format!("P {exit}"), "Alt");
+                    ctx.sess.checked("D", "D:Alt");
+                    edits(ctx);
+                    ctx.sess.checked("P 1b5b3f343768", "Alt");
+                    ctx.sess.checked("D", "D:Alt");
+                    ctx.sess.checked("T", "T");
                 }
             }
         }
@@ -798,6 +851,8 @@ fn cmd_gen(prop: &str, seed: u64, tier: &str, outdir: &str) {
         force_f12: false,
         prop: prop.to_string(),
     };
+    let _ = std::fs::create_dir_all(outdir);
+    ctx.sess.runner.journal = std::fs::File::create(format!("{outdir}/journal.txt")).ok();
     let n_cases: u64 = std::env::var("VERIF_CASES").ok().and_then(|s| s.parse().ok()).unwrap_or(if thorough { 8000 } else { 800 });
     // corpus first
     let corpus_dir = format!("{}/../corpus/{}", env!("CARGO_MANIFEST_DIR"), prop);
